@@ -61,6 +61,13 @@ var pushCdsGatewayConfig = func() sets.Set[kind.Kind] {
 	return s
 }()
 
+// onlyHeadlessEndpointUpdate reports whether every request that was merged into req is a headless endpoint marker.
+// Debouncing merges requests, and other triggers also use ServiceEntry keys (for example an EndpointUpdate full push
+// for a service whose service accounts changed), so the mere presence of HeadlessEndpointUpdate is not enough.
+func onlyHeadlessEndpointUpdate(req *model.PushRequest) bool {
+	return len(req.Reason) == 1 && req.Reason.Has(model.HeadlessEndpointUpdate)
+}
+
 // cdsNeedsPush may return a new PushRequest with ConfigsUpdated filtered to only include configs that impact CDS,
 // this is done because cluster generator checks if only some specific types of configs are present to enable delta generation.
 func cdsNeedsPush(req *model.PushRequest, proxy *model.Proxy) (*model.PushRequest, bool) {
@@ -77,7 +84,7 @@ func cdsNeedsPush(req *model.PushRequest, proxy *model.Proxy) (*model.PushReques
 	// In both cases, cluster definitions are static when only endpoints change.
 	// However, if ServiceUpdate is also present, the service definition changed
 	// (ports, labels, etc.) and we need to push CDS.
-	headlessOnly := req.Reason.Has(model.HeadlessEndpointUpdate) && !req.Reason.Has(model.ServiceUpdate)
+	headlessOnly := onlyHeadlessEndpointUpdate(req)
 
 	relevantUpdates := make(sets.Set[model.ConfigKey])
 	filtered := false
